@@ -119,6 +119,8 @@ def dump_tab(tab):
 
 
 def run_job(job):
+    import time as _t
+    _t0 = _t.time()
     logic = registry(job['logic'])
     prem = [wire.dec_sent(s) for s in job['premises']]
     conc = wire.dec_sent(job['conclusion'])
@@ -172,8 +174,18 @@ def run_job(job):
                 cm = f'{type(ex).__name__}: {ex}'
             ms.append(dict(bad=bad, countermodel=cm, quit=any(isinstance(n, FlagNode) and n.get('flag') == 'quit' for n in b)))
         out['models'] = ms
+    out['t_run'] = round(_t.time() - _t0, 3)
     if observations:
         out['observations'] = observations
+    if job.get('search') and tab.valid:
+        import random
+        from . import semantics
+        gen = json.loads((common.LEAN / 'Ptx' / 'Gen' / 'gen.json').read_text()) if _GEN is None else _GEN
+        meta_l = gen[job['logic']]
+        rng = random.Random(f"{job.get('search_seed', 0)}:{job['id']}")
+        out['countermodel'] = semantics.find_countermodel(job['logic'], meta_l, prem, conc, rng, budget=int(job['search']))
+        out['searched'] = True
+        out['t_total'] = round(_t.time() - _t0, 3)
     return out
 
 
